@@ -238,6 +238,8 @@ def round_trip_user(E, cfg):
     from quantity import Quantity
     X = C.mk_cls('XLen', ref_unit_symbol='x0')
     syms = ['µx', 'kg·m/s²x', 'fl oz', 'x²', 'a/b', 'Ω', '1x', 'e', '-', '.5', 'x y']
+    # symbols that are not stable under Unicode normalisation (OHM SIGN, ANGSTROM SIGN, KELVIN SIGN, combining accent)
+    syms = syms + ['\u2126', 'k\u2126', '\u212b', '\u212a', 'e\u0301']
     s = E.choice('sym', syms)
     if E.choice('parsed-before-declaration', [False, True]):
         # text naming the symbol before any unit has it: rejected; the later declaration makes the same text valid
